@@ -4,7 +4,7 @@ import re
 import z3
 
 from .types import Ty, INT, REAL, BOOL, STR, NONE, ANY, FN, parse_type, base_sort
-from .state import (V, VFunc, VBound, VClass, VModule, Exc, Unsupported, fresh_name,
+from .state import (V, VFunc, VBound, VClass, VModule, Exc, Unsupported, fresh_name, fn_term,
                     mk_int, mk_bool, mk_real, NONE_V, coerce)
 
 I = z3.IntSort()
@@ -17,11 +17,11 @@ BUILTINS = ('len', 'max', 'min', 'int', 'float', 'isinstance', 'any', 'all', 'st
             'RuntimeError', 'StopIteration', 'ZeroDivisionError')
 SPEC_BUILTINS = ('forall', 'exists', 'implies', 'iff', 'old', 'at', 'ite', 'forall_ref',
                  'exists_ref', 'allocated', 'fresh', 'typeof', 'unchanged', 'card',
-                 'select', 'floor_div', 'truthy', 'is_none', 'dyn_is', 'subset',
+                 'select', 'floor_div', 'truthy', 'is_none', 'dyn_is', 'cast', 'tag_is', 'subset',
                  'set_eq', 'set_minus', 'set_union', 'set_add', 'set_del', 'empty_set',
                  'disjoint', 'has_key', 'keys_eq', 'seq_eq', 'let', 'setof', 'dq_lo', 'dq_hi', 'dq_at',
                  'bi8', 'bu8', 'bi16', 'bu16', 'bu24', 'bi32', 'bu32', 'bi64', 'bcat', 'braw', 'bempty', 'blen', 'beq',
-                 'written', 'content', 'utf8', 'bmark', 'since', 'sum_of', 'crc_of', 'summands', 'stream_front', 'bslice')
+                 'written', 'content', 'utf8', 'bmark', 'since', 'sum_of', 'crc_of', 'summands', 'stream_front', 'bslice', 'split_part', 'split_count', 'str_to_int')
 
 
 class Ctx(object):
@@ -503,8 +503,22 @@ class ExprMixin(object):
 
   def ev_Dict(self, node, st, cx):
     ty = self.expected_type(cx, node)
+    if node.keys and (ty is None or ty.k != 'dict' or any(k is None for k in node.keys)):
+      raise Unsupported('non-empty dict literal without a declared dict type (line %d)' % node.lineno)
     if node.keys:
-      raise Unsupported('non-empty dict literal (line %d)' % node.lineno)
+      # {k1: v1, ...}: an empty dictionary filled entry by entry (python evaluates in source order)
+      for st1, vals in self.ev_seq([x for kv in zip(node.keys, node.values) for x in kv], st, cx):
+        if isinstance(vals, Exc):
+          yield st1, vals
+          continue
+        empty = ast.Dict(keys=[], values=[])
+        empty._pyvc_type = ty
+        ast.copy_location(empty, node)
+        for st2, d in self.ev_Dict(empty, st1, cx):
+          for i in range(0, len(vals), 2):
+            self.dict_set(st2, d, coerce(vals[i], ty.args[0]), vals[i + 1])
+          yield st2, d
+      return
     if ty is None:
       yield st, self.fresh_val(st, ANY, 'dict')      # an empty dict nobody looks into here
       return
@@ -831,8 +845,8 @@ class ExprMixin(object):
     if isinstance(a, (VClass, VFunc, VBound, VModule)) or isinstance(b, (VClass, VFunc, VBound, VModule)):
       if isinstance(a, VClass) and isinstance(b, VClass):
         return z3.BoolVal(a.name == b.name)
-      fa = z3.IntVal(a.fn_id) if isinstance(a, (VFunc, VBound, VClass)) else (a.t if isinstance(a, V) and a.ty.k in ('fn', 'any') else None)
-      fb = z3.IntVal(b.fn_id) if isinstance(b, (VFunc, VBound, VClass)) else (b.t if isinstance(b, V) and b.ty.k in ('fn', 'any') else None)
+      fa = fn_term(a) if isinstance(a, (VFunc, VBound, VClass)) else (a.t if isinstance(a, V) and a.ty.k in ('fn', 'any') else None)
+      fb = fn_term(b) if isinstance(b, (VFunc, VBound, VClass)) else (b.t if isinstance(b, V) and b.ty.k in ('fn', 'any') else None)
       if fa is not None and fb is not None:
         return fa == fb
       raise Unsupported('== on callables')
